@@ -4,12 +4,13 @@
    "never panics, always terminates" is: for every input the model's result is not [Panic].
    Proved here for the models that exist (SubRip reader over ANY token list - any bytes under any schedule -
    and writer over any cue list; the cue-list operations are total Gallina functions; the WebVTT reader and
-   writer; the teletext reader from the delivered PES payloads on - i.e. for every stream the third-party
+   writer; the SSA/ASS reader over any token list and writer over any document value and map order; the teletext reader from the delivered PES payloads on - i.e. for every stream the third-party
    demultiplexer gets through, whatever bytes the payloads hold).  For the formats whose models are not referenced
    below the property is decided on the implementation by the harness (structure-aware mutation under recover() and a
    watchdog), which is exploration, not proof. *)
 From Coq Require Import List NArith.
 From Astisub Require Import Kit.Base Kit.Scan Model.Srt Model.Vtt Model.Ttx Proofs.SrtIOProofs Proofs.VttIOProofs Proofs.TtxTotal.
+From Astisub Require Import Model.Ssa Proofs.SsaIgnore.
 Import ListNotations.
 
 Theorem C08_srt_reader_total : forall (ls : list (list N)) (scan_err : bool) (p : N), read_srt_lines ls scan_err <> Panic p.
@@ -27,6 +28,12 @@ Theorem C08_vtt_reader_total : forall (ls : list (list N)) (scan_err : bool) (p 
 Proof. exact read_vtt_lines_no_panic. Qed.
 Theorem C08_vtt_writer_total : forall d so ro (p : N), write_vtt d so ro <> Panic p.
 Proof. exact write_vtt_no_panic. Qed.
+(* SSA/ASS reader (any token list; the index panic of newSSAEventFromString on an empty Format is unreachable: the
+   reader checks the Format first) and writer (nil metadata, nil styles, nil inline attributes, any map order) *)
+Theorem C08_ssa_reader_total : forall (ls : list (list N)) (scan_err : bool) (p : N), read_ssa_lines ls scan_err <> Panic p.
+Proof. exact read_no_panic. Qed.
+Theorem C08_ssa_writer_total : forall d order (p : N), write_ssa d order <> Panic p.
+Proof. exact write_no_panic. Qed.
 
 (* teletext: any page option, any list of delivered (time, payload) pairs with arbitrary bytes *)
 Theorem C08_teletext_reader_total : forall page ds (p : N), ttx_feed page ds <> Panic p.
@@ -38,3 +45,5 @@ Print Assumptions C08_srt_reader_total_bytes.
 Print Assumptions C08_srt_writer_total.
 Print Assumptions C08_vtt_reader_total.
 Print Assumptions C08_vtt_writer_total.
+Print Assumptions C08_ssa_reader_total.
+Print Assumptions C08_ssa_writer_total.
